@@ -335,6 +335,14 @@ EXTRA2 = {
     "C06": " A quarter of the flat circuits name nodes like variables of the generated function (t, y, dy, hist, weight, x); "
            "a basic request that raises on a model that get_run_func translates is a violation.",
 }
+EXTRA2["C02"] += (" A quarter of the vf cases add maxi/mini with a numeric or variable bound, a sixth stand-alone ratios of integer "
+                  "literals; half of the fixed-step trajectory cases run the model a second time in the same process with twice "
+                  "the step size and the same numbers of steps.")
+EXTRA2["C08"] = " A third of the adaptive run cases use the torch / jax implementation of the input interpolation."
+EXTRA2["C19"] = " A rule repeats the time of the previous query exactly (records may have been added in between)."
+EXTRA2["C20"] = (" Unknown backend names are part of the matrix; misspelt outputs are also requested next to a valid one; "
+                 "node_values on node paths that do not exist.")
+EXTRA2["C07"] = " Histories add an (ineffective, weight 0) edge with update_template(in_place=True) before later edge updates."
 EXTRA2["C16"] += (" The population arm draws dde_approx=3 for a fifth of the delayed cases. Arm adaptive_forms: population form "
                   "and explicit PyRates network of one model under scipy RK45 (rtol 1e-9) must agree to 2e-6 (delays are not "
                   "drawn while F-16k is listed).")
